@@ -471,7 +471,7 @@ def _used_names_in_file(filename: Path) -> Collection[str]:
             # obj._Engine__step is how code outside of the class Engine spells its private __step
             names.extend(
                 node.attr[match.start() :]
-                for match in re.finditer(r"(?<=[^_])__(?=[^_])", node.attr)
+                for match in re.finditer(r"(?<=.)__(?=[^_])", node.attr)  # _Engine___step in Engine_
                 if node.attr.startswith("_") and not node.attr.endswith("__")
             )
             if isinstance(node.value, ast.Name) and node.value.id in imported_names:
